@@ -1,5 +1,7 @@
 import Mdsort.Proofs.FlagsTime
 import Mdsort.Proofs.WorldMtime
+import Mdsort.Proofs.WorldGenname
+import Mdsort.Proofs.WorldMain
 
 /-!
 # C09 - maildir names, flags, subdirectories and timestamps (flag algebra)
@@ -114,8 +116,8 @@ example :
   decide +kernel
 
 /-- `maildir_genname` returns a fresh name.  Without faults, in a destination directory `p` with
-entries `es`, with fuel for `|es| + 1` attempts (the model's 4096 when `|es| < 4096`) and candidate
-names that fit `NAME_MAX`: it returns a descriptor and a name that was NOT bound in `p`; afterwards
+fewer than `2 ^ 32` entries `es`, with fuel for `|es| + 1` attempts and candidate names that fit
+`NAME_MAX` (any fuel and starting counter; `C09_fresh_name_real` is the instance with the real constants): it returns a descriptor and a name that was NOT bound in `p`; afterwards
 the name is bound to the new file `w.nextFid`, which is empty and is what the descriptor refers
 to; every entry (of every directory) that was bound is bound to the same file; and the number of
 calls issued - `maildir_genname` issues nothing but exclusive creates - is at most the number of
@@ -123,6 +125,7 @@ candidate names already present plus one. -/
 theorem C09_fresh_name (env : PEnv) (md : Maildir) (flags : Option Bytes) (w : World) (d : Handle) (p : Bytes)
     (es : List (Bytes × Nat)) (fuel count i : Nat) (hist : List World)
     (hd : md.dirH = some d) (hp : w.dirPath d = some p) (hes : w.dir p = some es) (hfuel : es.length + 1 ≤ fuel)
+    (hW : es.length < gennameWrap)
     (hfit : ∀ j, j ≤ es.length → (Proofs.World.cand env flags (count + 1 + j)).length < NAME_MAX1) :
     ∃ h name, (runPlan Plan.none (genname env md flags fuel count) w i hist).1 = some (h, name) ∧
       w.lookup p name = none ∧
@@ -133,7 +136,7 @@ theorem C09_fresh_name (env : PEnv) (md : Maildir) (flags : Option Bytes) (w : W
         (runPlan Plan.none (genname env md flags fuel count) w i hist).2.1.lookup q m = some fid) ∧
       (runPlan Plan.none (genname env md flags fuel count) w i hist).2.2.length ≤
         hist.length + Proofs.World.presentCount env flags w p count fuel + 1 :=
-  Proofs.World.genname_fresh env md flags w d p es fuel count i hist hd hp hes hfuel hfit
+  Proofs.World.genname_fresh env md flags w d p es fuel count i hist hd hp hes hfuel hW hfit
 
 /-- The safety half, for ALL fault plans, all maildirs, all fuel: whatever `maildir_genname`
 returns and whatever fails, after every call and at the end every directory entry that was bound
@@ -149,11 +152,10 @@ theorem C09_fresh_name_never_replaces (env : PEnv) (md : Maildir) (flags : Optio
 
 open Proofs.World.C09Ex in
 /-- Non-vacuity of `C09_fresh_name`: `b` holds the first candidate; two calls, the second name
-(with the model's fuel 4096, and with fuel 8 where the count of present candidates is cheap to
-evaluate). -/
+(with 4096 attempts, and with 8 where the count of present candidates is cheap to evaluate). -/
 example :
     dst.dirH = some 1 ∧ (world []).dirPath 1 = some [98] ∧ (world []).dir [98] = some [(cand1, 1)] ∧
-    [(cand1, 1)].length + 1 ≤ 4096 ∧ [(cand1, 1)].length + 1 ≤ 8 ∧
+    [(cand1, 1)].length + 1 ≤ 4096 ∧ [(cand1, 1)].length + 1 ≤ 8 ∧ [(cand1, 1)].length < gennameWrap ∧
     (∀ j, j ≤ 1 → (Proofs.World.cand env (some [58, 50, 44]) (0 + 1 + j)).length < NAME_MAX1) ∧
     Proofs.World.cand env (some [58, 50, 44]) 1 = cand1 ∧
     (gen 4096 Plan.none).1 = some (2, cand2) ∧ (gen 4096 Plan.none).2.1.lookup [98] cand2 = some 2 ∧
@@ -161,6 +163,142 @@ example :
     (gen 8 Plan.none).1 = some (2, cand2) ∧ (gen 8 Plan.none).2.2.length = 2 ∧
     Proofs.World.presentCount env (some [58, 50, 44]) (world []) [98] 0 8 = 1 := by
   decide +kernel
+
+/-! ## `maildir_genname` with the real constants (`gennameStart`)
+
+The C function (maildir.c): `count = arc4random() % 128; for (;;) { count++; snprintf(.. "%lld.%d_%u.%s%s" ..);
+if too long: ENAMETOOLONG, return -1; fd = openat(.., O_WRONLY|O_CREAT|O_EXCL|O_CLOEXEC); if (fd == -1) { if (errno ==
+EEXIST) continue; return -1; } return fd; }`.  `Gen.gennameModulus = 128`, `Gen.gennameCountBits = 32` (`unsigned int
+count`) and `Gen.gennameLoopBound = none` (`for (;;)`: there is NO retry bound) are regenerated from the source on every
+run.  `Proofs.World.gennameCount0 env = env.random % 128`; `cand env flags c` is the name for counter value
+`c % 2 ^ 32` (what `%u` prints); `gennameAnswer .. j` is what the `j`-th `openat` returns under the plan in the world
+at the start (a failed `openat` changes nothing).  The model makes `gennameAttempts = 2 ^ 32` attempts (one full cycle of
+the counter) and then returns nothing; the C loop would try the same names again. -/
+
+/-- The constants are the real ones. -/
+theorem C09_genname_constants :
+    Gen.gennameModulus = 128 ∧ Gen.gennameCountBits = 32 ∧ Gen.gennameLoopBound = none ∧ gennameAttempts = 2 ^ 32 ∧
+    Gen.flagsMax = 64 := by decide
+
+/-- **If `maildir_genname` returns a name** - for every world, every fault plan, every starting value of the random
+counter, destination open on an existing directory `p`: the name is the candidate after `k < 2 ^ 32` answers `EEXIST`
+(`RetriedTo`), it fits `NAME_MAX`, it was NOT bound in `p` before the call; the descriptor is the new handle; the name
+is now bound to the file `w.nextFid` (ids are handed out from `nextFid`: a new file), which is empty and is what the
+descriptor refers to (write-only, offset 0); every entry of every directory that was bound is bound to the same file
+(nothing replaced); every other file has the same content; no directory appeared or vanished; no modification time
+changed. -/
+theorem C09_genname_real (env : PEnv) (md : Maildir) (flags : Option Bytes) (w : World) (plan : Plan) (i : Nat)
+    (hist : List World) (d : Handle) (p : Bytes) (hd : md.dirH = some d) (hp : w.dirPath d = some p) (hdir : (w.dir p).isSome)
+    (h : Handle) (name : Bytes) (hres : (runPlan plan (gennameStart env md flags) w i hist).1 = some (h, name)) :
+    (∃ k, k < gennameAttempts ∧ Proofs.World.RetriedTo env flags d plan w i k ∧
+      name = Proofs.World.cand env flags (Proofs.World.gennameCount0 env + 1 + k) ∧ name.length < NAME_MAX1) ∧
+    w.lookup p name = none ∧ h = w.handles.length ∧
+    (runPlan plan (gennameStart env md flags) w i hist).2.1.lookup p name = some w.nextFid ∧
+    (runPlan plan (gennameStart env md flags) w i hist).2.1.file w.nextFid = some ⟨[], []⟩ ∧
+    (runPlan plan (gennameStart env md flags) w i hist).2.1.obj h = .file w.nextFid 0 true ∧
+    (∀ q m fid, w.lookup q m = some fid → (runPlan plan (gennameStart env md flags) w i hist).2.1.lookup q m = some fid) ∧
+    (∀ g, g ≠ w.nextFid → (runPlan plan (gennameStart env md flags) w i hist).2.1.file g = w.file g) ∧
+    (∀ q, ((runPlan plan (gennameStart env md flags) w i hist).2.1.dir q).isSome = (w.dir q).isSome) ∧
+    (runPlan plan (gennameStart env md flags) w i hist).2.1.mtimes = w.mtimes :=
+  Proofs.World.genname_real_success env md flags w plan i hist d p hd hp hdir h name hres
+
+/-- **Exactly when it gives up** (returns -1, which every caller treats as an error): for every world and plan,
+`maildir_genname` returns nothing IFF for some `k ≤ 2 ^ 32` the first `k` candidates fit and were answered `EEXIST`, and
+then (`GivesUpAt`) either `k = 2 ^ 32` - every name the counter can produce has been tried (only here the model parts
+from the code, which has no bound and goes round again) -, or the next candidate does not fit `NAME_MAX`
+(ENAMETOOLONG), or the next `openat` fails with an error other than `EEXIST`. -/
+theorem C09_genname_gives_up_iff (env : PEnv) (md : Maildir) (flags : Option Bytes) (w : World) (plan : Plan) (i : Nat)
+    (hist : List World) (d : Handle) (p : Bytes) (hd : md.dirH = some d) (hp : w.dirPath d = some p) :
+    (runPlan plan (gennameStart env md flags) w i hist).1 = none ↔
+      ∃ k, k ≤ gennameAttempts ∧ Proofs.World.RetriedTo env flags d plan w i k ∧ Proofs.World.GivesUpAt env flags d plan w i k :=
+  Proofs.World.genname_real_gives_up_iff env md flags w plan i hist d p hd hp
+
+/-- Where the plan injects nothing, an answer is `EEXIST` iff the candidate name is bound in the directory, and
+success otherwise: so without faults "gives up" reads "the first `k` candidates are all taken, and `k = 2 ^ 32` or
+the next one does not fit". -/
+theorem C09_genname_answer_nofault (env : PEnv) (flags : Option Bytes) (d : Handle) (p : Bytes) (w : World)
+    (hp : w.dirPath d = some p) (plan : Plan) (i c0 j : Nat) (hpl : plan (i + j) = none) :
+    Proofs.World.gennameAnswer env flags d plan w i c0 j =
+      if (w.lookup p (Proofs.World.cand env flags (c0 + 1 + j))).isSome then .err "EEXIST" else .ok w.handles.length :=
+  Proofs.World.gennameAnswer_nofault env flags d p w hp plan i c0 j hpl
+
+/-- **Termination with the real constants**: for every world and every plan the number `n` of calls - all of them
+`openat(O_CREAT|O_EXCL)` in the destination (`C09_genname_only_creates`) - is at most `2 ^ 32`, and at most
+`|es| + (faults the plan injects among these calls) + 1`, `es` the entries of the destination: every retry is a
+name that is really taken or an injected `EEXIST`.  In particular at most `|es| + 1` calls without faults. -/
+theorem C09_genname_terminates_real (env : PEnv) (md : Maildir) (flags : Option Bytes) (w : World) (plan : Plan) (i : Nat)
+    (hist : List World) (d : Handle) (p : Bytes) (es : List (Bytes × Nat)) (hd : md.dirH = some d)
+    (hp : w.dirPath d = some p) (hes : w.dir p = some es) :
+    let n := (runPlan plan (gennameStart env md flags) w i hist).2.2.length - hist.length
+    n ≤ gennameAttempts ∧ n ≤ es.length + Proofs.World.faultsIn plan i n + 1 :=
+  Proofs.World.genname_real_calls env md flags w plan i hist d p es hd hp hes
+
+/-- Every call of `maildir_genname` is an exclusive create in its directory. -/
+theorem C09_genname_only_creates (env : PEnv) (md : Maildir) (flags : Option Bytes) (w : World) (plan : Plan) (d : Handle)
+    (hd : md.dirH = some d) :
+    ∀ c ∈ Proofs.World.callsOf' plan (gennameStart env md flags) w, ∃ n, c = .openExcl d n := by
+  obtain ⟨L, hL, hQ⟩ := (Proofs.World.calls_genname env md flags d hd gennameAttempts (env.random % Gen.gennameModulus)).trace plan w 0
+  unfold Proofs.World.callsOf' gennameStart
+  simp only [Proofs.World.runPlan_eq, hL, List.drop_left]
+  intro c hc
+  obtain ⟨x, hx, rfl⟩ := List.mem_map.1 hc
+  exact hQ x hx
+
+/-- The liveness half with the real constants: no fault, fewer than `2 ^ 32` entries, the first `|es| + 1`
+candidates fit: a name is returned after at most `|es| + 1` calls (instance of `C09_fresh_name`). -/
+theorem C09_fresh_name_real (env : PEnv) (md : Maildir) (flags : Option Bytes) (w : World) (d : Handle) (p : Bytes)
+    (es : List (Bytes × Nat)) (i : Nat) (hist : List World)
+    (hd : md.dirH = some d) (hp : w.dirPath d = some p) (hes : w.dir p = some es) (hW : es.length < 2 ^ 32)
+    (hfit : ∀ j, j ≤ es.length → (Proofs.World.cand env flags (Proofs.World.gennameCount0 env + 1 + j)).length < NAME_MAX1) :
+    ∃ h name, (runPlan Plan.none (gennameStart env md flags) w i hist).1 = some (h, name) ∧
+      w.lookup p name = none ∧
+      (runPlan Plan.none (gennameStart env md flags) w i hist).2.2.length ≤ hist.length + es.length + 1 := by
+  have hA : gennameAttempts = 2 ^ 32 := by decide
+  have hWr : gennameWrap = 2 ^ 32 := by decide
+  obtain ⟨h, name, h1, h2, -, -, -, -, -⟩ := Proofs.World.genname_fresh env md flags w d p es gennameAttempts
+    (env.random % Gen.gennameModulus) i hist hd hp hes (by omega) (by omega) hfit
+  have h3 := (C09_genname_terminates_real env md flags w Plan.none i hist d p es hd hp hes).2
+  rw [Proofs.World.faultsIn_none] at h3
+  have hlen : hist.length ≤ (runPlan Plan.none (gennameStart env md flags) w i hist).2.2.length := by
+    rw [Proofs.World.runPlan_eq]; simp
+  exact ⟨h, name, h1, h2, by omega⟩
+
+open Proofs.World.C09Ex in
+/-- Non-vacuity, evaluated with the real constants (`2 ^ 32` attempts, start `0 % 128`) in the world where `b` holds the
+first candidate: (1) no fault: two calls, `1.2_2.h:2,` created as file 2; (2) the plan answers the second `openat` with
+an injected `EEXIST`: three calls, `1.2_3.h:2,` created, nothing replaced; (3) the plan answers it with `EIO`: gives up
+after two calls, the directory is unchanged; (4) a host name of 250 bytes: gives up without a call (ENAMETOOLONG). -/
+example :
+    dst.dirH = some 1 ∧ (world []).dirPath 1 = some [98] ∧ (world []).dir [98] = some [(cand1, 1)] ∧
+    (genReal env Plan.none).1 = some (2, cand2) ∧ (genReal env Plan.none).2.2.length = 2 ∧
+    (genReal env (secondFails "EEXIST")).1 = some (2, cand3) ∧ (genReal env (secondFails "EEXIST")).2.2.length = 3 ∧
+    (genReal env (secondFails "EEXIST")).2.1.lookup [98] cand3 = some 2 ∧
+    (genReal env (secondFails "EEXIST")).2.1.lookup [98] cand2 = none ∧
+    (genReal env (secondFails "EEXIST")).2.1.lookup [98] cand1 = some 1 ∧
+    (genReal env (secondFails "EIO")).1 = none ∧ (genReal env (secondFails "EIO")).2.2.length = 2 ∧
+    (genReal env (secondFails "EIO")).2.1.dir [98] = some [(cand1, 1)] ∧
+    (genReal longHost Plan.none).1 = none ∧ (genReal longHost Plan.none).2.2.length = 0 := by
+  decide +kernel
+
+open Proofs.World.C09Ex in
+/-- Non-vacuity of `C09_fresh_name_real` in the same world: one entry, and the first two candidates fit. -/
+example : dst.dirH = some 1 ∧ (world []).dirPath 1 = some [98] ∧ (world []).dir [98] = some [(cand1, 1)] ∧
+    [(cand1, 1)].length < 2 ^ 32 ∧
+    (∀ j, j ≤ [(cand1, 1)].length →
+      (Proofs.World.cand env (some [58, 50, 44]) (Proofs.World.gennameCount0 env + 1 + j)).length < NAME_MAX1) := by
+  refine ⟨rfl, by decide, by decide, by decide, ?_⟩
+  intro j hj
+  have : j = 0 ∨ j = 1 := by simp at hj; omega
+  rcases this with rfl | rfl <;> decide +kernel
+
+open Proofs.World.C09Ex in
+/-- ... and the right-hand side of `C09_genname_gives_up_iff` on (3): one retry, then `EIO`. -/
+example : Proofs.World.RetriedTo env (some [58, 50, 44]) 1 (secondFails "EIO") (world []) 0 1 ∧
+    Proofs.World.GivesUpAt env (some [58, 50, 44]) 1 (secondFails "EIO") (world []) 0 1 := by
+  refine ⟨fun j hj => ?_, .inr (.inr ⟨by decide, by decide +kernel, "EIO", by decide, by decide +kernel⟩)⟩
+  have : j = 0 := by omega
+  subst this
+  exact ⟨by decide +kernel, by decide +kernel⟩
 
 /-- `maildir_move` never replaces anything.  For ALL fault plans: after every call of
 `maildir_move` and at its end, every directory entry `(q, m)` (of the destination or of any other
